@@ -196,6 +196,8 @@ def run_json(case, acc, order):
     with core.Scratch() as d:
         path = d / 'sub' / 'f.json'
         try:
+            # the file already exists with other, longer content: a save replaces it entirely
+            save_json(path, {'zzz': list(range(40)), 'k': 'x' * 300})
             save_json(path, data)
             back = load_json(path)
         except Exception as e:
@@ -374,6 +376,7 @@ def run_table(case, acc, order):
                 kwargs['first_field'] = case['first']
             if prec != 4:
                 kwargs['n_significant_figures'] = prec
+            write_tsv(path, [{'cluster_id': 9, 'a': 'old', 'b': 'y' * 200, 'zz': 1}] * 3)   # stale content
             write_tsv(path, rows, **kwargs)
             back = read_tsv(path)
             header = path.read_text(encoding='utf-8').split('\n')[0].rstrip('\r')
@@ -444,6 +447,7 @@ def run_simple(case, acc, order):
     with core.Scratch() as d:
         path = d / ('cluster_f.' + case['ext'])
         try:
+            _write_tsv_simple(path, 'g', {i: 'stale' * 20 for i in range(6)})     # stale content
             _write_tsv_simple(path, 'f', data)
             back = _read_tsv_simple(path)
         except Exception as e:
@@ -525,6 +529,7 @@ def run_params(case, acc, order):
     with core.Scratch() as d:
         path = d / 'params.py'
         try:
+            write_python(path, {'old_key': 'x' * 300, 'other': [1, 2, 3]})    # stale content
             write_python(path, data)
             back = read_python(path)
         except Exception as e:
